@@ -6,7 +6,14 @@
 mod c03;
 mod c18;
 mod drive;
+mod emitted;
 mod gen_ast;
+mod gen_prog;
+mod l2;
+mod layout_props;
+mod layoutdump;
+mod probe;
+mod refprog;
 mod refmodel;
 mod render;
 mod rng;
@@ -22,6 +29,11 @@ fn main() {
     if args.len() < 3 {
         eprintln!("usage: pvh <Cxx> <quick|thorough> [--replay <file>]");
         std::process::exit(2);
+    }
+    if args[1] == "debug-emitted" {
+        let text = std::fs::read_to_string(&args[2]).unwrap();
+        println!("{:#?}", emitted::parse(&text));
+        return;
     }
     let prop = args[1].as_str();
     let tier = match args[2].as_str() {
@@ -63,6 +75,7 @@ fn main() {
         });
         let case = if v.get("case").is_some() { v["case"].clone() } else { v };
         match prop {
+            "C01" | "C02" => layout_props::replay(&mut ctx, prop, &case),
             "C03" => c03::replay(&mut ctx, &case),
             "C18" => c18::replay(&mut ctx, &case),
             _ => {
@@ -75,6 +88,7 @@ fn main() {
         std::process::exit(if n > 0 { 1 } else { 0 });
     }
     match prop {
+        "C01" | "C02" => layout_props::run(&mut ctx, prop),
         "C03" => c03::run(&mut ctx),
         "C18" => c18::run(&mut ctx),
         _ => {
